@@ -1,7 +1,9 @@
 import Dmn.Lemmas.LalrProgress
 import Dmn.Lemmas.LalrStack
 import Dmn.Lemmas.LexerProgress
+import Dmn.Lemmas.LexerNextChar
 import Dmn.Lemmas.EvalNoPanic
+import Dmn.Lemmas.TemporalMachineIdeal
 
 /-!
 # C05 (parser side) — FEEL parsing is total
@@ -148,6 +150,36 @@ theorem lexer_skip_settles (inp : List Nat) (pos : Nat) (h : pos ≤ inp.length)
 -- non-vacuity: `/*a*/ /*b*/ 1` — both comments are skipped, the cursor stands on `1`
 example : skipBlanks [47, 42, 97, 42, 47, 32, 47, 42, 98, 42, 47, 32, 49] 0 = 12 := by decide
 
+/-- The loop of `is_next_character` (which since the repair of F33 jumps over comments) stops
+within the model's budget: any budget above `len − p` gives the same answer. -/
+theorem lexer_next_character_settles (inp chars : List Nat) (p f : Nat) (h : inp.length - p < f) :
+    nextCharLoop inp chars f p = nextCharLoop inp chars (inp.length - p + 1) p :=
+  nextCharLoop_fuel inp chars f _ p h (by omega)
+
+-- non-vacuity: `function /* c */ (`: after the keyword (offset 8) the next character is `(`
+example : isNextCharacter [102, 117, 110, 99, 116, 105, 111, 110, 32, 47, 42, 32, 99, 32, 42, 47, 32, 40]
+    0 [40, 60] 8 = true := by decide
+
+/-- A type name is expected in the first name after the request only: the name arm of
+`read_next_token` leaves `type_name` cleared whatever name it produced (finding L3, repaired:
+before, the flag survived a name that is not a built-in type name and turned a later `date`,
+`time`, `string`, `number` … into a type name). -/
+theorem lexer_type_name_one_name (l : Lx) (t : Token) (l' : Lx) (h : nameArm l = .ok (t, l')) :
+    l'.typeName = false := by
+  unfold nameArm at h
+  split at h
+  · cases h; rfl
+  · cases h
+  · cases h
+  · cases h
+
+-- non-vacuity: `tFoo)` with `type_name` set: the name `tFoo`, flag cleared
+def exTypeName : Lx :=
+  { input := [116, 70, 111, 111, 41], pos := 0, start := none, unaryTests := false, between := false,
+    typeName := true, tillIn := false, keys := [] }
+example : nameArm exTypeName = .ok (⟨.name, .name [116, 70, 111, 111]⟩, { exTypeName with pos := 4, typeName := false }) := by
+  decide
+
 /-- `lexer_progress`: a successful call never moves the cursor backwards, and every token other
 than `YyEof` and `YyUndef` moves it strictly forward (after the start token has been
 delivered).  The parser stops at `YyEof`/`YyUndef`, hence tokenisation terminates. -/
@@ -202,3 +234,137 @@ theorem iterator_no_panic (states : List Iter.State) (p : String) : Iter.run sta
   run_no_panic states p
 
 end Dmn.Eval
+
+/-! ## Part (a), temporal code: the machine-integer layer never panics
+
+`Dmn.TemporalMachine` (Dmn/Model/TemporalMachine.lean) is the model of the integer arithmetic of
+`feel/src/temporal/{mod,date,zone,dt_duration,ym_duration}.rs` and of the temporal arms of
+`feel-evaluator/src/builders.rs` (`+`, `-`, unary `-`, the duration and date properties) and
+`bifs/core.rs` (`time` with an offset, `years and months duration`, `duration`, `@"…"` literals)
+with the integer types the Rust code uses (`i64` months, `i128` nanoseconds, `u64`/`usize`/`isize`/
+`i32`/`u32` intermediates), in both integer modes.  `Op.wellTyped` says only that the operands are
+values of those types: any `i64` months, any `i128` nanoseconds, any `i32` year.
+
+FULL STATEMENT (not provable of the current code, finding F62-dtd-i128):
+
+    theorem temporal_no_panic (m : IntMode) (op : Op) (hw : op.wellTyped = true) (s : String) :
+        run m op ≠ .panic s
+
+The sum, the difference and the negation of days and time durations are computed in `i128` with
+plain `+`, `-`, unary `-` (`dt_duration.rs:107-129`) and `get_days` … `get_seconds`, `Display`
+take `self.0.abs()`: with overflow checks they panic when the exact result does not fit (reachable
+from FEEL text by doubling a duration of 2^64 − 1 days seventeen times), without checks they return
+the wrapped value.  The repair needs a checked operation in the public interface of `dmntk-feel`
+that `dmntk-feel-evaluator` (built against the published crate) cannot see. -/
+
+namespace Dmn.TemporalMachine
+open Dmn Dmn.Cal Dmn.Temporal
+
+/-- `temporal_no_panic_wrapping`: in a build without overflow checks no temporal operation panics,
+for any operands whatsoever. -/
+theorem temporal_no_panic_wrapping (op : Op) (s : String) : run .wrapping op ≠ .panic s :=
+  isOk_noPanic (run_wrapping_isOk op) s
+
+/-- `temporal_no_panic_partial`: in both integer modes, for every operation and all operands of
+the Rust types, the outcome is not a panic — provided the exact result of the unchecked `i128`
+operations fits (`Op.i128Exact`: the sum / difference fits, the operand of negation, `abs` and
+`Display` is not `i128::MIN`).  The years and months operations (`+`, `-`, unary `-`, `string`,
+the literal), the literal of days and time durations, the offset of `time`, `years and months
+duration` of two dates and the weekday of a date carry no such proviso (since the repairs
+80fdaec, e101009). -/
+theorem temporal_no_panic_partial (m : IntMode) (op : Op) (hw : op.wellTyped = true)
+    (hx : op.i128Exact = true) (s : String) : run m op ≠ .panic s := by
+  obtain ⟨r, hr⟩ := run_ok_of_exact m op hw hx
+  rw [hr]
+  intro h
+  cases h
+
+-- non-vacuity: i64::MAX + 1 months is null, not a panic; i64::MIN months are printed
+example : run .checked (.ymAdd 9223372036854775807 1) = .ok .null := rfl
+example : (Op.ymPrint (-9223372036854775808)).wellTyped = true ∧ (Op.ymPrint (-9223372036854775808)).i128Exact = true := by
+  decide
+
+/-- `temporal_no_panic_counterexample`: with overflow checks the sum of two days and time
+durations that does not fit `i128` panics, and so do the negation, the `days` property and
+`string()` of the duration of `i128::MIN` nanoseconds (all operands well typed). -/
+theorem temporal_no_panic_counterexample :
+    (Op.dtdAdd tI128.hi 1).wellTyped = true ∧ run .checked (.dtdAdd tI128.hi 1) = .panic sDt ∧
+    (Op.dtdNeg tI128.lo).wellTyped = true ∧ run .checked (.dtdNeg tI128.lo) = .panic sDt ∧
+    run .checked (.dtdSub tI128.lo 1) = .panic sDt ∧
+    run .checked (.dtdDays tI128.lo) = .panic sDt ∧
+    run .checked (.dtdPrint tI128.lo) = .panic sDt :=
+  ⟨rfl, rfl, rfl, rfl, rfl, rfl, rfl⟩
+
+/-- `temporal_machine_eq_ideal`: inside the representable range (`Op.inRange`: the exact result
+fits the type it is computed in; for `days` also the count fits `usize`, for the offset of `time`
+the whole seconds fit `isize`) the machine result, in both integer modes, is the value of the
+unbounded-`Int` model of C14 / C15 (`Dmn.Temporal.feelAddYmd` …, `printYmDur`, `printDtDur`,
+`Date.ymDuration`, `Cal.weekday ∘ daysFromCivil`, the components of `timeFromNumbers`): the
+theorems of C14 / C15 about that model transfer to the machine layer there. -/
+theorem temporal_machine_eq_ideal (m : IntMode) (op : Op) (hw : op.wellTyped = true)
+    (hr : op.inRange = true) : run m op = .ok (ideal op) :=
+  run_eq_ideal m op hw hr
+
+-- non-vacuity: a difference of durations at the ends of `i64`
+example : run .checked (.ymSub 9223372036854775807 9223372036854775806) = .ok (.int 1) := rfl
+
+/-- `temporal_ym_out_of_range_null`: outside `i64` the sum, the difference and the negation of
+years and months durations are null (not a wrapped value, not a panic), in both modes. -/
+theorem temporal_ym_out_of_range_null (m : IntMode) (a b : Int) :
+    (tI64.fits (a + b) = false → run m (.ymAdd a b) = .ok .null) ∧
+    (tI64.fits (a - b) = false → run m (.ymSub a b) = .ok .null) ∧
+    (tI64.fits (-a) = false → run m (.ymNeg a) = .ok .null) := by
+  have key : ∀ x : Int, tI64.fits x = false → tI64.checkedOp x = none := by
+    intro x hx
+    unfold IntTy.fits at hx
+    unfold IntTy.checkedOp
+    rw [if_neg]
+    intro hh
+    simp only [hh.1, hh.2, decide_true, Bool.and_self] at hx
+    cases hx
+  refine ⟨fun h => ?_, fun h => ?_, fun h => ?_⟩
+  · simp only [run, ymAdd, key _ h]; rfl
+  · simp only [run, ymSub, key _ h]; rfl
+  · simp only [run, ymNeg, key _ h]; rfl
+
+-- non-vacuity
+example : tI64.fits (9223372036854775807 + 1) = false := by decide
+
+/-- `temporal_wrapped_counterexample` (breaks C14 / C15, not C05): where the code narrows with `as`
+or computes without a check, a value outside the range comes back wrapped instead of null —
+(1) the `days` of the duration of (2^64 + 5) days is 5; (2) `time(h, m, s, offset)` with an offset
+of 2^64 seconds has the offset 0 (UTC), and of 2^64 + 1 seconds the offset 1 second, where the
+unbounded model gives null; (3) without overflow checks `i128::MAX` ns + 1 ns is `i128::MIN` ns. -/
+theorem temporal_wrapped_counterexample :
+    run .checked (.dtdDays ((18446744073709551616 + 5) * 86400000000000)) = .ok (.int 5) ∧
+    ideal (.dtdDays ((18446744073709551616 + 5) * 86400000000000)) = .int 18446744073709551621 ∧
+    run .checked (.time4Offset (18446744073709551616 * 1000000000)) = .ok (.int 0) ∧
+    ideal (.time4Offset (18446744073709551616 * 1000000000)) = .null ∧
+    run .checked (.time4Offset (18446744073709551617 * 1000000000)) = .ok (.int 1) ∧
+    run .wrapping (.dtdAdd tI128.hi 1) = .ok (.int tI128.lo) :=
+  ⟨rfl, rfl, rfl, rfl, rfl, rfl⟩
+
+/-- `temporal_aux_no_panic`: the remaining integer statements of the temporal code return, in both
+modes, for every value their operands can take: the zone offset of a literal (two-digit fields,
+`zone.rs:90-107`), the sign of a literal's year (at most nine digits, `date.rs:68`), `abs` of a
+zone offset in `Display` (offsets are at most 14:59:59, `zone.rs:56-60`), `second(offset)` and
+`nano(difference)` on the zero duration (`dt_duration.rs:68-76`), `fraction_to_nanoseconds`
+(`mod.rs:641-648`: nine decimal digits stay below 10⁹), the `as u32` of such nanoseconds
+(`mod.rs:299` …: the value is unchanged), and `FixedOffset::east` of such an offset (`mod.rs:584`). -/
+theorem temporal_aux_no_panic (m : IntMode) :
+    (∀ neg h mi s, (0 ≤ h ∧ h ≤ 99) → (0 ≤ mi ∧ mi ≤ 99) → (∀ v, s = some v → 0 ≤ v ∧ v ≤ 99) →
+      ∃ r, zoneOffset m neg h mi s = .ok r) ∧
+    (∀ y, (0 ≤ y ∧ y ≤ 999999999) → dateNegYear m y = .ok (-y)) ∧
+    (∀ o, (-53999 ≤ o ∧ o ≤ 53999) → zoneAbs m o = .ok (o.natAbs : Int)) ∧
+    (∀ sec, tI64.fits sec = true → dtdOfSeconds m sec = .ok (sec * nsPerSecond)) ∧
+    (∀ a, tI64.fits a = true → dtdOfNanos m a = .ok a) ∧
+    (∀ ds, (∀ d ∈ ds, d ≤ 9) → ∃ v, fractionToNanos m ds = .ok v ∧ 0 ≤ v ∧ v < 1000000000) ∧
+    (∀ ns, (0 ≤ ns ∧ ns < 1000000000) → nanosAsU32 ns = ns) ∧
+    (∀ o, (-53999 ≤ o ∧ o ≤ 53999) → eastOffset o = .ok o) :=
+  ⟨fun neg h mi s => zoneOffset_ok m neg h mi s, dateNegYear_ok m, zoneAbs_ok m, dtdOfSeconds_ok m,
+    dtdOfNanos_ok m, fractionToNanos_ok m, nanosAsU32_id, eastOffset_ok⟩
+
+-- non-vacuity: the largest offset a literal can denote, negative
+example : zoneOffset .checked true 14 59 (some 59) = .ok (some (-53999)) := rfl
+
+end Dmn.TemporalMachine
